@@ -571,3 +571,119 @@ pub fn locator(seed: u64, tier: Tier, budget: Duration) -> Acc {
     }
     acc
 }
+
+
+// -----------------------------------------------------------------------------------------
+// Part 3: an `ActiveChain` held across a reorganisation of the real chain
+//
+// A protocol handler takes `SyncShared::active_chain()` (which pins a snapshot) and may still be
+// using it after the chain service has switched the main chain. Whatever happened to the store
+// in the meantime, `get_ancestor(base, n)` is the block found by walking the parent links from
+// `base`, and every locator entry is such an ancestor.
+
+pub fn pinned_across_reorg(seed: u64, tier: Tier, budget: Duration) -> Acc {
+    use vnode::consensus::{self, ChainParams, EpochMode};
+    use vnode::model::{H, h};
+    use vnode::node::{Node, NodeCfg};
+    use vnode::treegen::{TreeCfg, TreeGen};
+    let mut acc = Acc::new();
+    let deadline = Deadline::after(budget);
+    let mut rng = Rng::new(seed ^ 0x91_44ED);
+    let rounds = tier.pick(3u64, 20u64);
+    let res = catch(|| {
+        for round in 0..rounds {
+            if deadline.passed() {
+                break;
+            }
+            let mut params = ChainParams::default();
+            params.epoch = EpochMode::Permanent { genesis_len: 50, epoch_len: 50 };
+            let gi = consensus::build(&params);
+            let cfg = TreeCfg { n_blocks: 0, invalid: 0, fork_pm: 0, max_new_txs: 0, uncle_pm: 0, ..Default::default() };
+            let mut tg = TreeGen::new(&gi, cfg, rng.next_u64());
+            let a_len = 12 + rng.range(0, 30);
+            let fork_at = 1 + rng.range(0, a_len - 2);
+            let b_extra = 1 + rng.range(0, 12);
+            // branch A
+            let mut a: Vec<H> = vec![tg.rc.genesis];
+            for i in 0..a_len {
+                let x = tg.extend(&a[i as usize]);
+                a.push(x);
+            }
+            // branch B from A[fork_at], longer than A
+            let mut b: Vec<H> = a[..=fork_at as usize].to_vec();
+            for _ in 0..(a_len - fork_at + b_extra) {
+                let x = tg.extend(b.last().unwrap());
+                b.push(x);
+            }
+            let node = Node::boot(&gi, &NodeCfg::default());
+            for x in a.iter().skip(1) {
+                let _ = node.chain().blocking_process_block(std::sync::Arc::clone(&tg.rc.get(x).block));
+            }
+            if h(&node.tip_hash()) != *a.last().unwrap() {
+                acc.inconclusive.push("pinned: node did not reach the tip of branch A".into());
+                return;
+            }
+            let (_tx, rx) = ckb_channel::unbounded();
+            let sync_shared = SyncShared::new(node.shared.clone(), SyncConfig::default(), rx);
+            let pinned = sync_shared.active_chain();
+            for x in b.iter().skip(fork_at as usize + 1) {
+                let _ = node.chain().blocking_process_block(std::sync::Arc::clone(&tg.rc.get(x).block));
+            }
+            if h(&node.tip_hash()) != *b.last().unwrap() {
+                acc.inconclusive.push("pinned: node did not switch to branch B".into());
+                return;
+            }
+            acc.count("pinned.reorgs_behind_a_pinned_active_chain");
+            let fresh = sync_shared.active_chain();
+            let b32 = |x: &H| Byte32::new(*x);
+            let cases: [(&str, &ckb_sync::ActiveChain, &Vec<H>); 4] = [
+                ("pinned_view.abandoned_branch", &pinned, &a),
+                ("pinned_view.new_branch", &pinned, &b),
+                ("fresh_view.abandoned_branch", &fresh, &a),
+                ("fresh_view.new_branch", &fresh, &b),
+            ];
+            for (name, chain, path) in cases {
+                let base = b32(path.last().unwrap());
+                let top = path.len() as u64 - 1;
+                for n in 0..=top {
+                    let got = chain.get_ancestor(&base, n).map(|v| v.hash());
+                    acc.eval();
+                    acc.count("pinned.get_ancestor");
+                    acc.distinct(vbase::fnv1a(format!("{name}|{}|{}", n.cmp(&fork_at) as i8, top - n < 3).as_bytes()));
+                    let want = b32(&path[n as usize]);
+                    if got.as_ref() != Some(&want) {
+                        acc.violation(
+                            &format!("ancestor.active_chain_get_ancestor.differs_from_parent_walk@{name}"),
+                            format!(
+                                "branch A has {a_len} blocks, branch B forks at height {fork_at} and became the main chain while the ActiveChain was held; get_ancestor(tip of {} at height {top}, {n}) returned {:?}, parent walking gives {}",
+                                if name.ends_with("abandoned_branch") { "A" } else { "B" },
+                                got.map(|x| format!("{x}")), want
+                            ),
+                            json!({"round": round, "a_len": a_len, "fork_at": fork_at, "b_len": b.len() - 1, "height": n, "case": name}),
+                        );
+                        break;
+                    }
+                }
+                let loc = chain.get_locator(BlockNumberAndHash::new(top, base.clone()));
+                acc.eval();
+                acc.count("pinned.get_locator");
+                let on_path: std::collections::HashSet<Byte32> = path.iter().map(b32).collect();
+                if loc.first() != Some(&base) || loc.iter().any(|x| !on_path.contains(x)) {
+                    acc.violation(
+                        &format!("locator.get_locator.entry_not_an_ancestor@{name}"),
+                        format!("locator starting at the tip of branch {} (height {top}) contains blocks that are not its ancestors (fork at {fork_at})", if name.ends_with("abandoned_branch") { "A" } else { "B" }),
+                        json!({"round": round, "a_len": a_len, "fork_at": fork_at, "case": name, "locator": loc.iter().map(|x| format!("{x}")).collect::<Vec<_>>()}),
+                    );
+                }
+            }
+            drop(pinned);
+            drop(fresh);
+            drop(sync_shared);
+            drop(node);
+        }
+    });
+    if let Err(msg) = res {
+        acc.violation("ancestor.pinned_active_chain.panicked", format!("get_ancestor / get_locator on a pinned ActiveChain panicked: {msg}"), json!({}));
+    }
+    acc
+}
